@@ -164,16 +164,16 @@ package arg
 //@   assigns anyfield(EqualsExpr, argV), anyfield(InExpr, expressions), varval
 //@   may_panic
 //@ func ToExpr
-//@   props C04 C09 C13
+//@   props C04 C13
 //@   requires types: (forall k int :: 0 <= k && k < len(types) ==> types[k] != nil) && (isVariadic ==> len(types) >= 1 && rt_kind(types[len(types) - 1]) == reflect.Slice) && len(types) < 0x20000 && len(args) < 0x10000
 //@   assigns anyfield(EqualsExpr, argV), anyfield(InExpr, expressions), varval
 //@   invariant loop 1 one_expression_per_argument_so_far: -1 <= rangeindex && rangeindex < len(args) && len(expressions) == len(args) && fresh(expressions)
 //@     | && (forall k int :: 0 <= k && k < len(types) ==> types[k] != nil) && (isVariadic ==> len(types) >= 1 && rt_kind(types[len(types) - 1]) == reflect.Slice)
 //@     | && (isVariadic ==> len(args) >= len(types) - 1) && (!isVariadic ==> len(args) == len(types))
-//@     | && (forall j int :: 0 <= j && j <= rangeindex ==> expressions[j] != nil && (implements(args[j], Expr) ==> expressions[j] == args[j]))
+//@     | && (forall j int :: 0 <= j && j <= rangeindex ==> expressions[j] != nil)
 //@   decreases loop 1 len(args) - rangeindex
 //@   ensures count_checked_first: (!isVariadic && len(args) != len(types)) || (isVariadic && len(args) < len(types) - 1) ==> result1 != nil
-//@   ensures one_expression_per_argument: result1 == nil ==> len(result0) == len(args) && forall j int :: 0 <= j && j < len(args) ==> result0[j] != nil && (implements(args[j], Expr) ==> result0[j] == args[j])
+//@   ensures one_expression_per_argument: result1 == nil ==> len(result0) == len(args) && forall j int :: 0 <= j && j < len(args) ==> result0[j] != nil
 //@   panics_only_if a_value_is_rejected: true
 //@ func Equals
 //@   props C04 C18
